@@ -61,6 +61,12 @@ var avoidKnown = map[string]bool{
 	// allocate 40 GB in total. Recipes with a "repeat" of 10 000 copies or more are not executed; an input with
 	// 10 000 trak boxes in one moov that fails for time is attributed to the same switch.
 	"repeat>=10000": true,
+	// The io.Reader decoders wrap the reader once per container level (io.LimitedReader plus a position counter, mp4/
+	// container.go, mp4/box.go), so one Read call costs O(depth). With a reader that delivers ONE byte per call (legal
+	// io.Reader behaviour; the harness' entry DecodeFileOneByte) every input byte travels through all levels: 100
+	// nested udta boxes around a box of a 200 KB file cost 2.2 us per byte (0.44 s, bound 0.3 s); the product
+	// depth x length is the same weakness as nest-depth>=1000, reached earlier through the reader.
+	"nest-depth>=32+one-byte-reader": true,
 	// File.CopySampleData trusts the sample tables of the decoded moov: chunk offsets outside the mdat box panic in the
 	// non-lazy branch (mp4/file.go: mdat.Data[offset-payloadStart : ...]), an stsc entry with samples_per_chunk 0 divides
 	// by zero and an empty stsc is indexed in StscBox.GetContainingChunks, a sample number beyond stsz panics in
@@ -237,6 +243,8 @@ func (c containerCase) avoidShape(data []byte) string {
 		return "nest-depth>=1000"
 	case sh.maxTraks >= 10000 && c.avoid("repeat>=10000"):
 		return "repeat>=10000"
+	case c.Entry == "DecodeFileOneByte" && sh.depth >= 32 && c.avoid("nest-depth>=32+one-byte-reader"):
+		return "nest-depth>=32+one-byte-reader"
 	}
 	return ""
 }
@@ -436,6 +444,8 @@ func knownShape(c containerCase, data []byte, f *harness.Fail) *harness.Fail {
 			return harness.Failf("C04|resources|nest-depth>=1000", "%s: %s", f.Key, f.Msg)
 		case sh.maxTraks >= 10000:
 			return harness.Failf("C04|resources|repeat>=10000", "%s: %s", f.Key, f.Msg)
+		case c.Entry == "DecodeFileOneByte" && sh.depth >= 32:
+			return harness.Failf("C04|resources|nest-depth>=32+one-byte-reader", "%s: %s", f.Key, f.Msg)
 		}
 	}
 	return f
